@@ -25,7 +25,10 @@ Gen == [accts |-> Accts,
         bcn |-> [feeReg |-> 20, feeRec |-> 1, feePur |-> 5, denom |-> "nund", def |-> 2, max |-> 4, startId |-> 1],
         str |-> [feeNum |-> 1, feeDen |-> 100]]
 
-Init == st = StateOf(Gen) /\ phase = "idle" /\ hist = <<[a |-> "InitChain", g |-> Gen]>> /\ nTx = 0 /\ nFail = 0 /\ GoalRegsInit
+Pre == <<>>     \* no scripted prefix in this model
+Init == /\ st = FoldL(LAMBDA ev, s : Step(s, ev).st, StateOf(Gen), Pre)
+        /\ phase = (IF Pre = <<>> THEN "idle" ELSE "block")
+        /\ hist = <<[a |-> "InitChain", g |-> Gen]>> \o Pre /\ nTx = 0 /\ nFail = 0 /\ GoalRegsInit
 
 GovTx(p) == GovTxFor(st, "ent", p)
 
